@@ -47,6 +47,71 @@ class Node:
         return f'<{self.id}:{self.kind}{" " + self.label if self.label else ""} {t}>'
 
 
+def predicate_expr(fdef, call):
+    """The boolean expression a small predicate function computes for this call, written in the caller's terms
+    (parameters replaced by the call's arguments, single-assignment locals by their definitions); None if the function
+    is not of the form  [x = e]* [if t: return True/False]* return e."""
+    import copy
+    if not isinstance(fdef, (ast.FunctionDef,)) or fdef.decorator_list and not all(isinstance(d, ast.Name) and d.id in ('staticmethod', 'classmethod') for d in fdef.decorator_list):
+        return None
+    params = [a.arg for a in fdef.args.posonlyargs + fdef.args.args]
+    if fdef.args.vararg or fdef.args.kwarg:
+        return None
+    is_static = any(isinstance(d, ast.Name) and d.id == 'staticmethod' for d in fdef.decorator_list)
+    if isinstance(call.func, ast.Attribute) and params and not is_static and params[0] in ('self', 'cls'):
+        env = {params[0]: call.func.value}
+        params = params[1:]
+    else:
+        env = {}
+    if any(isinstance(a, ast.Starred) for a in call.args) or any(kw.arg is None for kw in call.keywords) or len(call.args) > len(params):
+        return None
+    for p_, a in zip(params, call.args):
+        env[p_] = a
+    for kw in call.keywords:
+        if kw.arg not in params:
+            return None
+        env[kw.arg] = kw.value
+    defaults = fdef.args.defaults
+    for p_, d in zip(params[len(params) - len(defaults):], defaults):
+        env.setdefault(p_, d)
+    if any(p_ not in env for p_ in params):
+        return None
+
+    class Sub(ast.NodeTransformer):
+        def visit_Name(self, node):
+            if isinstance(node.ctx, ast.Load) and node.id in env:
+                return copy.deepcopy(env[node.id])
+            return node
+
+    def sub(e):
+        return Sub().visit(copy.deepcopy(e))
+
+    body = [st for st in fdef.body if not (isinstance(st, ast.Expr) and isinstance(st.value, ast.Constant) and isinstance(st.value.value, str))]
+    items, final = [], None
+    assigned = set()
+    for st in body:
+        if isinstance(st, (ast.Assign, ast.AnnAssign)) and (isinstance(st, ast.AnnAssign) or len(st.targets) == 1):
+            tgt = st.targets[0] if isinstance(st, ast.Assign) else st.target
+            if not isinstance(tgt, ast.Name) or tgt.id in assigned or tgt.id in params or st.value is None:
+                return None
+            assigned.add(tgt.id)
+            env[tgt.id] = sub(st.value)
+        elif isinstance(st, ast.If) and not st.orelse and len(st.body) == 1 and isinstance(st.body[0], ast.Return) and isinstance(st.body[0].value, ast.Constant) \
+                and isinstance(st.body[0].value.value, bool):
+            items.append((sub(st.test), st.body[0].value.value))
+        elif isinstance(st, ast.Return) and st.value is not None:
+            final = sub(st.value)
+            break
+        else:
+            return None
+    if final is None:
+        return None
+    e = final
+    for test, const in reversed(items):
+        e = ast.BoolOp(op=ast.Or(), values=[test, e]) if const else ast.BoolOp(op=ast.And(), values=[ast.UnaryOp(op=ast.Not(), operand=test), e])
+    return ast.fix_missing_locations(ast.copy_location(e, call))
+
+
 class _K:
     """Builder context."""
 
@@ -346,6 +411,14 @@ class CFG:
                     self._no_exc -= 1
         if isinstance(expr, ast.Call) and isinstance(expr.func, ast.Name) and expr.func.id == 'bool' and len(expr.args) == 1 and not expr.keywords:
             return self._cond(expr.args[0], preds, k, _expanding)   # bool(x) branches like x
+        if isinstance(expr, ast.Call) and self.inline is not None and k.depth < 3 and id(expr) not in _expanding:
+            # a private predicate helper (`if not a: return False ... return c`) branches like the expression it computes
+            target = self.inline(expr, self._inline_stack[-1])
+            if target is not None and not any(target is f_ for f_ in self._inline_stack):
+                pe = predicate_expr(target, expr)
+                if pe is not None:
+                    self._no_exc = getattr(self, '_no_exc', 0)
+                    return self._cond(pe, preds, k.with_(depth=k.depth + 1), _expanding + (id(expr),))
         if isinstance(expr, ast.UnaryOp) and isinstance(expr.op, ast.Not):
             t, f = self._cond(expr.operand, preds, k, _expanding)
             return f, t
